@@ -30,7 +30,7 @@ def decodeOnce (keepReserved : Bool) : Bytes → Option Bytes
       | h :: l :: r =>
         match hexVal h, hexVal l, decodeOnce keepReserved r with
         | some a, some b, some d =>
-          if keepReserved && isRFC6570Reserved (a * 16 + b) then some (37 :: h :: l :: d) else some ((a * 16 + b) :: d)
+          if keepReserved && isRFC6570Reserved (a <<< 4 ||| b) then some (37 :: h :: l :: d) else some ((a <<< 4 ||| b) :: d)
         | _, _, _ => none
       | _ => none
     else (decodeOnce keepReserved rest).map (c :: ·)
